@@ -309,10 +309,32 @@ class C10(Oracle):
         if not run.spec.get("fleets") and self.fleet_world:
             run.probes["private_home_base_without_fleets_file"] += 1
         self.pairs = 0
-        return c10_state_check(rp.s, -1)
+        self.req_fleet = {r["id"]: r.get("fleet") for r in run.spec.get("requests") or ()}
+        return c10_state_check(rp.s, -1) + self._as_assigned(run.spec, rp.s)
+
+    @staticmethod
+    def _as_assigned(spec, sim):
+        """the memberships the loaded entities carry are the ones the scenario assigned: every fleet an entity is listed under in the
+        fleets file is in its membership (the loader may add private home-base ids, never drop a fleet) -- otherwise every later
+        'access granted' is judged against a membership the user never wrote"""
+        out = []
+        for kind, coll in (("vehicles", sim.vehicles), ("stations", sim.stations), ("bases", sim.bases)):
+            for name, members in sorted((spec.get("fleets") or {}).items()):
+                for eid in members.get(kind) or ():
+                    e = coll.get(eid)
+                    if e is not None and name not in e.membership.memberships:
+                        out.append(V("C10", "membership_not_as_assigned", -1,
+                                     f"{kind[:-1]} {eid} is listed under fleet {name} in the fleets file but carries {sorted(e.membership.memberships)}"))
+        return out
 
     def step(self, ctx):
         out = c10_state_check(ctx.nxt, ctx.k)
+        for rid, r in ctx.nxt.requests.items():
+            if rid not in ctx.prev.requests and rid in self.req_fleet:
+                want = {self.req_fleet[rid]} if self.req_fleet[rid] else set()
+                if set(r.membership.memberships) != want:
+                    out.append(V("C10", "membership_not_as_assigned", ctx.k,
+                                 f"request {rid} is assigned to {sorted(want)} in the input but carries {sorted(r.membership.memberships)}"))
         if ctx.applied:
             out += [V("C10", "no_access@after_instructions", ctx.k, x["msg"], key=x["key"]) for x in c10_state_check(ctx.applied[-1][2], ctx.k)]
         for name, sim, env, ins in ctx.spy:
